@@ -38,7 +38,7 @@ fn main() {
     }
     if args[1] == "c12-child" {
         std::panic::set_hook(Box::new(|_| {}));
-        props::c12::child(args[2].parse().unwrap_or(1), args[3].parse().unwrap_or(1));
+        props::c12::child(args[2].parse().unwrap_or(1), args[3].parse().unwrap_or(1), args.get(4).and_then(|a| a.parse().ok()));
         return;
     }
     let prop = args[1].to_uppercase();
